@@ -70,6 +70,8 @@ type fnEnc struct {
 	defs      map[string]string
 	callOrd   map[string]int
 	localAllocs []string // refs of non-escaping allocations
+	localMaps   []*ssa.MakeMap
+	curInstr    ssa.Instruction
 	lockAtEntry string
 	loopSels    map[string]int
 	hitOrd      map[string]int
@@ -444,6 +446,7 @@ func (e *fnEnc) havocSummary(s *Summary, all bool) {
 			}
 			old := e.cur[k]
 			e.havoc(k)
+			e.keepLocalMaps(k, old)
 			// cells of non-escaping local allocations cannot be reached by any callee
 			if hk, ok := e.vc.keys[k]; ok && old != "" && strings.HasPrefix(hk.Sort, "(Array Int ") && (strings.HasPrefix(k, "F!") || strings.HasPrefix(k, "D!")) {
 				for _, a := range e.localAllocs {
@@ -464,11 +467,31 @@ func (e *fnEnc) havocSummary(s *Summary, all bool) {
 	for _, k := range ks {
 		old := e.cur[k]
 		e.havoc(k)
+		e.keepLocalMaps(k, old)
 		if hk, ok := e.vc.keys[k]; ok && old != "" && strings.HasPrefix(hk.Sort, "(Array Int ") && (strings.HasPrefix(k, "F!") || strings.HasPrefix(k, "D!")) {
 			for _, a := range e.localAllocs {
 				e.vc.def(fmt.Sprintf("(= (select %s %s) (select %s %s))", e.cur[k], a, old, a))
 			}
 		}
+	}
+}
+
+// keepLocalMaps: a map created by this function that no other function can have seen yet keeps its contents
+// across a call, whatever the callee's write summary says about maps of that type.
+func (e *fnEnc) keepLocalMaps(k, old string) {
+	if old == "" || e.curInstr == nil || !(strings.HasPrefix(k, "MH!") || strings.HasPrefix(k, "MV!")) || e.cur[k] == old {
+		return
+	}
+	for _, mk := range e.localMaps {
+		mt := mk.Type().Underlying().(*types.Map)
+		if e.S().MapHasKey(mt).Name != k && e.S().MapValKey(mt).Name != k {
+			continue
+		}
+		t, ok := e.val[mk]
+		if !ok || !e.mapUnescapedAt(mk, e.curInstr) {
+			continue
+		}
+		e.vc.def(fmt.Sprintf("(= (select %s %s) (select %s %s))", e.cur[k], t, old, t))
 	}
 }
 
